@@ -19,6 +19,7 @@ beyond generators (C01); quadrature/boson conversions; DOCI.
 import OFV.Proofs.C08Arith
 import OFV.Proofs.C08Conv
 import OFV.Proofs.C08Rot
+import OFV.Proofs.C08Iter
 
 namespace OFV.C08
 open OFV OFV.Spec OFV.Spec.C08 OFV.Model.C08 OFV.C08P
@@ -73,6 +74,42 @@ theorem tensor_sub_counterexample :
       melF (denotePT r.d) 0 0 ≠ melF (denotePT a.d) 0 0 - melF (denotePT b.d) 0 0 := by
   refine ⟨exA, exB, _, exA_WF, exB_WF, by simp [exB], rfl, ?_⟩
   decide +kernel
+
+/-- **`tensor_denote_iter`: `get_fermion_operator(PolynomialTensor)` denotes the tensor.**
+The FermionOperator built by `_polynomial_tensor_to_fermion_operator` — driven by `__iter__` (keys
+sorted by `(len, int(''.join(key)))`, zero entries skipped, `()` always yielded) and `__getitem__`,
+accumulated with `+=` (which deletes coefficients below the tolerance) — has the matrix elements of
+`⟦T⟧ = Σ_key Σ_index T_key[index] · (index, key)`, for tensors of any order and any key set.
+Hypotheses: distinct keys, well-shaped arrays, and the exact regime (every coefficient the loop
+reads is `0` or not below the tolerance; implied by "every entry is 0 or ≥ tol"). -/
+theorem tensor_denote_iter (tol : Rat) (a : PT) (hn : (Dict.keys a.d).Nodup) (hs : WF a)
+    (hx : ∀ e ∈ iterE a, GQ.isSmall tol e.2 = true → e.2 = 0) (t s : Nat) :
+    melF (toFermion tol a) t s = melF (denotePT a.d) t s := by
+  rw [melF_eq_evalW, melF_eq_evalW, evalW_denotePT, toFermion_eq]
+  have hnd : ((iterE a).map Prod.fst).Nodup :=
+    (iter_nodup a hn hs).sublist (iterE_fst_sublist a (iter a))
+  rw [fold_fresh tol _ (iterE a) [] hnd (by intro e _; simp) hx]
+  have := iterE_sum (fun τ => termMel τ t s) a hn hs
+  simp only [evalW, zero_add]
+  exact this
+
+/-- **`getitem_spec`**: `T[(i_1, a_1), …, (i_k, a_k)]` is the entry `index = (i_1..i_k)` of the array
+stored under the key `(a_1..a_k)` (non-constant keys). -/
+theorem getitem_spec (a : PT) (k : Key) (T : Tensor) (idx : List Nat) (c : GQ) (hk : k ≠ [])
+    (hl : idx.length = k.length) (hg : Dict.get? a.d k = some T) (ht : tget idx T = some c) :
+    getitem a (idx.zip k) = .ok c := by
+  rw [getitem_zip a k T idx hk hl hg, ht]
+
+example : getitem exC [(0, 1), (0, 0)] = .ok ⟨2, 1⟩ := by decide +kernel
+
+/-- the terms yielded by `__iter__` are pairwise distinct (no entry is yielded twice) -/
+theorem iter_yields_distinct_terms (a : PT) (hn : (Dict.keys a.d).Nodup) (hs : WF a) : (iter a).Nodup :=
+  iter_nodup a hn hs
+
+/-- non-vacuity: `exC` (a one-body array and a constant) is in the exact regime of the live tolerance -/
+example : (Dict.keys exC.d).Nodup ∧ WF exC ∧
+    ∀ e ∈ iterE exC, GQ.isSmall Generated.eqTolerance e.2 = true → e.2 = 0 :=
+  ⟨by decide, exC_WF, by decide +kernel⟩
 
 /-- scalar `*` / `*=` -/
 theorem tensor_smul_hom (a : PT) (c : GQ) (t s : Nat) :
